@@ -30,6 +30,11 @@ def relevant_forms(prop, reg, tier="quick"):
     forms = {f: v for f, v in reg["forms"].items() if tier == "thorough" or v.get("tier", "quick") == "quick"}
     if prop in ("C07", "C08", "C20", "C15"):
         return sorted(forms)
+    if prop == "C06":
+        # the entry/return contracts assume the state invariant `PC < 2^24` (the frame is (CCR << 24) | PC); the
+        # invariant is established by the `pc` postcondition of every form that loads PC from data, so those
+        # postconditions are obligations of C06 as well
+        return sorted(f for f, v in forms.items() if v["prop"] in ("C06", "C05"))
     return sorted(f for f, v in forms.items() if v["prop"] == prop)
 
 
@@ -37,6 +42,8 @@ def expected_ids(prop, form, home):
     ids = []
     if prop == home:
         ids += ["%s/%s/%s" % (prop, form, c) for c in HOME_CLAUSES]
+    if prop == "C06" and home == "C05":
+        ids.append("C05/%s/pc" % form)
     if prop == "C07":
         ids.append("C07/%s/executed_as_encoded_with_its_length" % form)
     if prop == "C08":
